@@ -22,7 +22,8 @@ template<class T> struct FiObj : Obj {
   typedef frequent_items_sketch<T, uint64_t, typename HashOf<T>::type, typename EqOf<T>::type, mc::TrackAlloc<T> > Sk; typedef typename SerdeOf<T>::type SD;
   Sk sk;
   explicit FiObj(Sk&& s): sk(std::move(s)) {}
-  std::string obs() {
+  std::string obs() { return obs_of(sk); }
+  static std::string obs_of(const Sk& sk) {
     std::string o = "empty=" + str(sk.is_empty()) + "|active=" + str(sk.get_num_active_items()) + "|W=" + str(sk.get_total_weight()) + "|maxerr=" + str(sk.get_maximum_error()) + "|eps=" + str(sk.get_epsilon());
     for (int i = 0; i < 24; ++i) { T v = Gen<T>::make(i); o += "|" + str(sk.get_lower_bound(v)) + "," + str(sk.get_estimate(v)) + "," + str(sk.get_upper_bound(v)); }
     for (int e = 0; e < 2; ++e) { auto rows = sk.get_frequent_items(e ? NO_FALSE_NEGATIVES : NO_FALSE_POSITIVES); std::vector<std::string> r;
@@ -67,7 +68,8 @@ struct CmObj : Obj {
   typedef count_min_sketch<uint64_t, mc::TrackAlloc<uint64_t> > Sk;
   Sk sk;
   explicit CmObj(Sk&& s): sk(std::move(s)) {}
-  std::string obs() {
+  std::string obs() { return obs_of(sk); }
+  static std::string obs_of(const Sk& sk) {
     std::string o = "h=" + str((int)sk.get_num_hashes()) + "|b=" + str(sk.get_num_buckets()) + "|seed=" + str(sk.get_seed()) + "|W=" + str(sk.get_total_weight()) + "|empty=" + str(sk.is_empty()) + "|relerr=" + str(sk.get_relative_error()) + "|cells=";
     for (auto it = sk.begin(); it != sk.end(); ++it) o += str(*it) + ",";
     for (int i = 0; i < 12; ++i) o += "|" + str(sk.get_lower_bound((uint64_t)i)) + "," + str(sk.get_estimate((uint64_t)i)) + "," + str(sk.get_upper_bound((uint64_t)i));
@@ -180,7 +182,8 @@ template<class T> struct EbObj : Obj {
   typedef ebpps_sketch<T, mc::TrackAlloc<T> > Sk; typedef typename SerdeOf<T>::type SD;
   Sk sk; int next;
   explicit EbObj(Sk&& s): sk(std::move(s)), next(900) {}
-  std::string obs() {
+  std::string obs() { return obs_of(sk); }
+  static std::string obs_of(const Sk& sk) {
     std::string o = "k=" + str(sk.get_k()) + "|n=" + str(sk.get_n()) + "|W=" + str(sk.get_cumulative_weight()) + "|c=" + str(sk.get_c()) + "|empty=" + str(sk.is_empty()) + "|items=";
     // iteration draws (the partial item is included with probability frac(c)): observe under a fixed schedule, both outcomes
     for (int b = 0; b < 2; ++b) { mc::Tape t; t.raw_fill = b ? mc::raw_from_unit(0.999) : mc::raw_from_unit(0.001); mc::TapeScope sc(t);
@@ -219,7 +222,8 @@ template<class T> struct TdObj : Obj {
   typedef tdigest<T, mc::TrackAlloc<T> > Sk;
   Sk sk; bool with_buffer; int next;
   TdObj(Sk&& s, bool wb): sk(std::move(s)), with_buffer(wb), next(0) {}
-  std::string obs() {
+  std::string obs() { return obs_of(sk); }
+  static std::string obs_of(const Sk& sk) {
     // queries compress the buffer: observe a copy so that the object under test keeps its buffer
     Sk c(sk);
     std::string o = "k=" + str(c.get_k()) + "|W=" + str(c.get_total_weight()) + "|empty=" + str(c.is_empty());
@@ -272,7 +276,8 @@ struct BloomObj : Obj {
   Bytes mem; Bloom bf;   // mem is the caller buffer when the filter is wrapped
   explicit BloomObj(Bloom&& b): bf(std::move(b)) {}
   BloomObj(Bytes&& m, bool writable): mem(std::move(m)), bf(writable ? Bloom::writable_wrap(mem.data(), mem.size(), mc::TrackAlloc<uint8_t>(1)) : Bloom::wrap(mem.data(), mem.size(), mc::TrackAlloc<uint8_t>(1))) {}
-  std::string obs() {
+  std::string obs() { return obs_of(bf); }
+  static std::string obs_of(Bloom& bf) {
     std::string o = "cap=" + str(bf.get_capacity()) + "|h=" + str(bf.get_num_hashes()) + "|seed=" + str(bf.get_seed()) + "|empty=" + str(bf.is_empty()) + "|used=" + str(bf.get_bits_used()) + "|q=";
     for (int i = 0; i < 40; ++i) o += bf.query((uint64_t)i) ? "1" : "0";
     o += bf.query(std::string("abc")) ? "1" : "0";
@@ -324,8 +329,9 @@ struct DensObj : Obj {
   typedef density_sketch<double, GaussAny, mc::TrackAlloc<double> > Sk; typedef std::vector<double, mc::TrackAlloc<double> > Pt;
   Sk sk; int next;
   explicit DensObj(Sk&& s): sk(std::move(s)), next(0) {}
+  std::string obs() { return obs_of(sk); }
   static Pt pt(int i, uint32_t dim) { Pt p(dim, 0.0, mc::TrackAlloc<double>(1)); for (uint32_t d = 0; d < dim; ++d) p[d] = ((i * 7 + (int)d * 3) % 11) * 0.25; return p; }
-  std::string obs() {
+  static std::string obs_of(const Sk& sk) {
     std::string o = "k=" + str(sk.get_k()) + "|dim=" + str(sk.get_dim()) + "|n=" + str(sk.get_n()) + "|ret=" + str(sk.get_num_retained()) + "|empty=" + str(sk.is_empty()) + "|est=" + str(sk.is_estimation_mode()) + "|pts=";
     std::vector<std::string> it; for (auto i = sk.begin(); i != sk.end(); ++i) { std::string s = str((*i).second) + ":"; for (size_t d = 0; d < (*i).first.size(); ++d) s += str((*i).first[d]) + ";"; it.push_back(s); }
     std::sort(it.begin(), it.end()); for (size_t i = 0; i < it.size(); ++i) o += it[i] + ",";
